@@ -142,6 +142,9 @@ func (e *Engine) callStatic(fr *Frame, st *State, fn *ssa.Function, binds []Val,
 	if strings.HasPrefix(name, "Gvc") && len(fn.Blocks) > 0 && isPanicStub(fn) {
 		return e.intrinsic(fr, st, name, fn, args, pos)
 	}
+	if e.P.RecFuncs[fn] {
+		return e.recCall(fr, st, fn, args, pos)
+	}
 	if strings.HasPrefix(name, "Gvc") {
 		return e.inline(fr, st, fn, binds, args, pos)
 	}
@@ -355,6 +358,10 @@ func (e *Engine) applyContract(fr *Frame, st *State, c *Contract, fn *ssa.Functi
 		g := e.evalSpec(fr, e.clauseFunc(c, cl), args, st, nil)
 		e.oblige(st, "pre", calleeLabel(c)+":"+clauseLabel(cl), g, pos)
 	}
+	// the callee may allocate
+	if !c.Pure {
+		e.bumpTime(st)
+	}
 	// frame
 	e.havocModifies(fr, st, c, args)
 	// results
@@ -507,6 +514,7 @@ func (e *Engine) havocModifies(fr *Frame, st *State, c *Contract, args []Val) {
 			}
 			st.heaps[h] = nv
 			e.heapWf(st, nv)
+			e.heapOlderThanNow(st, nv)
 		}, nil)
 	}
 }
@@ -731,4 +739,110 @@ func (e *Engine) structFootprint(fp *footprint, name string) {
 		}
 	}
 	add(t)
+}
+
+// recCall: a call to a recursive spec function becomes an application of an SMT recursive
+// function whose extra leading arguments are the heaps its body reads.
+func (e *Engine) recCall(fr *Frame, st *State, fn *ssa.Function, args []Val, pos token.Pos) Val {
+	if ri, building := e.recBuilding[fn]; building {
+		if ri == nil {
+			// analysis pass (heap reads): the result is irrelevant
+			return T{"rec_analysis", e.sortOf(fn.Signature.Results().At(0).Type())}
+		}
+		return e.recApp(ri, st, args)
+	}
+	ri := e.recInfo[fn]
+	if ri == nil {
+		ri = e.buildRec(fr, fn)
+		e.recInfo[fn] = ri
+	}
+	return e.recApp(ri, st, args)
+}
+
+func (e *Engine) recApp(ri *recInfo, st *State, args []Val) Val {
+	var ts []T
+	for i, h := range ri.heaps {
+		ts = append(ts, e.heap(st, h, ri.sorts[i]))
+	}
+	for _, a := range args {
+		t, ok := a.(T)
+		if !ok {
+			e.unsupported("argument of recursive spec function %s is %T", ri.name, a)
+		}
+		ts = append(ts, t)
+	}
+	return T{app(ri.name, ts...), ri.result}
+}
+
+func (e *Engine) buildRec(fr *Frame, fn *ssa.Function) *recInfo {
+	if fn.Signature.Results().Len() != 1 {
+		e.unsupported("recursive spec function %s must have one result", fn.Name())
+	}
+	// pass 1: which heaps does the body read?
+	e.recBuilding[fn] = nil
+	savedRead := e.readRec
+	e.readRec = map[string]bool{}
+	e.dry++
+	e.noOblig++
+	func() {
+		s := &State{pc: tTrue, cells: map[cellKey]Val{}, heaps: map[string]T{}, defers: map[int][]*deferEntry{}}
+		e.epochSeq++
+		s.epoch = e.epochSeq
+		nf := e.newFrame(fn, fr)
+		nf.spec = true
+		for _, p := range fn.Params {
+			nf.vals[p] = T{e.freshName("ra"), e.sortOf(p.Type())}
+		}
+		e.runFunction(nf, s)
+	}()
+	e.noOblig--
+	e.dry--
+	reads := e.readRec
+	e.readRec = savedRead
+	ri := &recInfo{name: "rec_" + sanitize(fn.Pkg.Pkg.Name()) + "_" + fn.Name(), result: e.sortOf(fn.Signature.Results().At(0).Type())}
+	for _, h := range sortedKeys(reads) {
+		if strings.HasPrefix(h, "IT_") {
+			continue
+		}
+		ri.heaps = append(ri.heaps, h)
+		ri.sorts = append(ri.sorts, e.heapSort[h])
+	}
+	// pass 2: the body as a term over bound heaps and parameters
+	e.recBuilding[fn] = ri
+	var params []string
+	s := &State{pc: tTrue, cells: map[cellKey]Val{}, heaps: map[string]T{}, defers: map[int][]*deferEntry{}}
+	e.epochSeq++
+	s.epoch = e.epochSeq
+	for i, h := range ri.heaps {
+		v := fmt.Sprintf("H%d", i)
+		s.heaps[h] = T{v, ri.sorts[i]}
+		params = append(params, fmt.Sprintf("(%s %s)", v, ri.sorts[i]))
+	}
+	nf := e.newFrame(fn, fr)
+	nf.spec = true
+	for i, p := range fn.Params {
+		v := fmt.Sprintf("a%d", i)
+		nf.vals[p] = T{v, e.sortOf(p.Type())}
+		params = append(params, fmt.Sprintf("(%s %s)", v, e.sortOf(p.Type())))
+	}
+	e.inlineTerms++
+	e.noOblig++
+	savedDry := e.dry
+	e.dry = 0
+	before := len(s.heaps)
+	out, res := e.runFunction(nf, s)
+	e.dry = savedDry
+	e.noOblig--
+	e.inlineTerms--
+	delete(e.recBuilding, fn)
+	if out == nil || len(res) != 1 {
+		e.unsupported("recursive spec function %s does not return", fn.Name())
+	}
+	if len(out.heaps) != before {
+		e.unsupported("recursive spec function %s touches heaps not found by the analysis pass", fn.Name())
+	}
+	body := res[0].(T)
+	e.emitDecl(fmt.Sprintf("(define-fun-rec %s (%s) %s %s)", ri.name, strings.Join(params, " "), ri.result, body.S))
+	e.trust("recursive spec function " + fn.Name() + " is well-founded (its definition is given to the solver as define-fun-rec)")
+	return ri
 }
